@@ -204,6 +204,74 @@ fn slow_condition_scenario(r: &mut Report, k: u64) {
     drop(silent);
 }
 
+/// A connection condition that turns every new connection away (an application closing its doors before it stops):
+/// the shutdown signal still ends run(), whatever the condition says about the connection that wakes the accept loop.
+fn rejecting_condition_scenario(r: &mut Report, k: u64) {
+    use std::sync::atomic::{AtomicBool, Ordering};
+    fn doors_open(_: &mut TcpStream, closed: Arc<AtomicBool>) -> bool {
+        !closed.load(Ordering::SeqCst)
+    }
+    let port = hvcommon::net::free_port("127.0.0.1");
+    let addr: SocketAddr = format!("127.0.0.1:{}", port).parse().unwrap();
+    let (tx, rx) = channel();
+    let (dtx, drx) = channel();
+    let app: App<AtomicBool> = App::new_with_config(2, AtomicBool::new(false)).with_route("/fast", |_: Request, _: Arc<AtomicBool>| Response::new(StatusCode::OK, "fast")).with_connection_condition(doors_open).with_shutdown(rx);
+    let state = app.get_state();
+    std::thread::spawn(move || {
+        let _ = app.run(addr);
+        dtx.send(Instant::now()).ok();
+    });
+    let ask = |addr: SocketAddr| -> Option<Vec<u8>> {
+        use std::io::Write;
+        let mut s = TcpStream::connect(addr).ok()?;
+        let _ = s.write_all(b"GET /fast HTTP/1.1\r\nHost: hv\r\nConnection: close\r\n\r\n");
+        let mut sink = Vec::new();
+        let _ = s.set_read_timeout(Some(Duration::from_secs(5)));
+        let _ = s.read_to_end(&mut sink);
+        Some(sink)
+    };
+    let mut up = false;
+    for _ in 0..400 {
+        if let Some(a) = ask(addr) {
+            up = a.starts_with(b"HTTP/1.1 200");
+            break;
+        }
+        std::thread::sleep(Duration::from_millis(3));
+    }
+    r.eval();
+    r.count("rejecting_condition_scenarios", 1);
+    r.nontrivial(0x20d0_0000 + k);
+    if !up {
+        r.inconclusive("rejecting-condition app did not start serving");
+        return;
+    }
+    state.store(true, Ordering::SeqCst);
+    if k % 2 == 0 {
+        // seen from outside: connections are now turned away
+        if ask(addr).map(|a| a.is_empty()) == Some(true) {
+            r.count("connections_turned_away_by_condition", 1);
+        }
+    }
+    std::thread::sleep(Duration::from_millis(20 + (k % 4) * 40));
+    let t_signal = Instant::now();
+    tx.send(()).ok();
+    let replay = vec!["c20".to_string(), "--rejecting-condition".into(), k.to_string()];
+    match drx.recv_timeout(Duration::from_secs(10)) {
+        Err(_) => r.violation("C20/run-did-not-return:threaded", "[threaded] run() had not returned 10 s after the shutdown signal (the connection condition rejects every connection, also the one that wakes the accept loop)".to_string(), hvcommon::json::J::Null, replay),
+        Ok(t) => {
+            r.max("max_ms_signal_to_return", t.saturating_duration_since(t_signal).as_millis() as u64);
+            match std::net::TcpListener::bind(addr) {
+                Ok(l) => {
+                    drop(l);
+                    r.count("rebinds_ok", 1);
+                    r.count("rejecting_condition_returns_and_rebinds_ok", 1);
+                }
+                Err(e) => r.violation("C20/port-not-free:threaded", format!("[threaded] run() returned with a rejecting connection condition but re-binding {} failed: {}", addr, e), hvcommon::json::J::Null, replay),
+            }
+        }
+    }
+}
+
 pub fn main(args: &Args) {
     let out = args.get("out").expect("--out");
     let seed = args.seed();
@@ -214,6 +282,9 @@ pub fn main(args: &Args) {
         let mut r = Report::new();
         if only.is_none() && shard < 8 {
             slow_condition_scenario(&mut r, shard as u64);
+        }
+        if only.is_none() && shard >= 8 {
+            rejecting_condition_scenario(&mut r, shard as u64);
         }
         let mut k = only.unwrap_or(shard as u64);
         while k < n || only == Some(k) {
